@@ -103,7 +103,8 @@ def make_schema(variant=0):
     # per-token boosts (DelimitedAttributeFilter: "word^2"): the posting weight is the sum of the boosts of the
     # term's occurrences; one field with positions (and characters in every other variant), one with frequencies only
     anab = analysis.RegexTokenizer(r"\S+") | analysis.DelimitedAttributeFilter()
-    schema.add("wb", fields.TEXT(analyzer=anab, phrase=True, chars=(variant % 2 == 0)))
+    # (wb also has a field boost of 2: a factor of every posting weight - ContentCheck!FieldBoost4)
+    schema.add("wb", fields.TEXT(analyzer=anab, phrase=True, chars=(variant % 2 == 0), field_boost=2.0))
     # (... whose term vectors are in another format than its postings: positions)
     from whoosh import formats
     schema.add("wf", fields.TEXT(analyzer=anab, phrase=False, vector=formats.Positions()))
